@@ -1,7 +1,632 @@
-//! C15 — stub (not built yet).
+//! C15 — SLURM: a payload is dropped exactly when some filter of its kind
+//! matches; files survive JSON; assertions yield their payload.
 
 use crate::engine::*;
+use crate::gen::{dense_u128, dense_u32, pick_idx, U128};
+use proptest::prelude::*;
+use rpki::crypto::keys::KeyIdentifier;
+use rpki::resources::addr::{MaxLenPrefix, Prefix};
+use rpki::resources::asn::Asn;
+use rpki::rtr::payload as rtr;
+use rpki::rtr::pdu::{ProviderAsns, RouterKeyInfo};
+use rpki::slurm::{
+    AspaAssertion, AspaFilter, Base64KeyInfo, BgpsecAssertion, BgpsecFilter, LocallyAddedAssertions, PrefixAssertion,
+    PrefixFilter, SlurmFile, ValidationOutputFilters,
+};
+use serde::{Deserialize, Serialize};
+use std::net::{Ipv4Addr, Ipv6Addr};
+use std::str::FromStr;
+
+pub const RULE: &str = "drop-enum: complete enumeration of files holding 0, 1 or 2 prefix filters (prefix in {absent, \
+covering by one bit, /0 of the family, equal, more specific, /0 of the other family, same bits in the other family, \
+disjoint sibling} x asn in {absent, equal, different}), 0 or 1 BGPsec filter (ski x asn, each absent/equal/different), \
+ASPA filters in {field absent, empty list, customer absent/equal/different}, against each of 9 payloads (IPv4 /16, /0, \
+/32; IPv6 /32, /0, /128 origins, 2 router keys, 1 ASPA; all sharing one AS number so that filters of the wrong kind \
+would match if consulted); oracle: dropped <=> a filter of the payload's kind has >=1 criterion and all its criteria \
+match (covers = address-range inclusion on integers); also each filter's own drop_* methods. drop-random: random filter \
+lists (0..6 per kind, aspa None/Some) over pools of related prefixes / AS numbers / key identifiers x 1..6 payloads, \
+same oracle. json: random whole files (all optional fields, comments with JSON-special and arbitrary Unicode \
+characters, key infos of every length mod 3, provider lists) -> to_string / to_string_pretty / to_writer / \
+to_writer_pretty -> from_str / from_reader == original; iter_payload() yields, per kind and in order, exactly the \
+payloads with the assertions' fields. non-trivial = >=2 filter kinds populated and a payload of a non-prefix kind \
+(drop-*), file with >=2 assertion kinds and a comment (json).";
+
+//------------ plain data ------------------------------------------------------
+
+#[derive(Clone, Copy, Debug, PartialEq, Eq, Serialize, Deserialize)]
+pub struct Pfx {
+    pub v6: bool,
+    /// host bits zero; IPv4 in the low 32 bits
+    pub addr: U128,
+    pub len: u8,
+}
+
+impl Pfx {
+    fn fam(self) -> u8 {
+        if self.v6 { 128 } else { 32 }
+    }
+    fn host_mask(self) -> u128 {
+        let h = (self.fam() - self.len) as u32;
+        if h == 0 { 0 } else if h >= 128 { u128::MAX } else { (1u128 << h) - 1 }
+    }
+    fn new(v6: bool, addr: u128, len: u8) -> Pfx {
+        let fam = if v6 { 128 } else { 32 };
+        let len = len.min(fam);
+        let addr = if v6 { addr } else { addr & 0xFFFF_FFFF };
+        let mut p = Pfx { v6, addr: U128(addr), len };
+        p.addr = U128(addr & !p.host_mask());
+        p
+    }
+    fn min(self) -> u128 {
+        self.addr.0
+    }
+    fn max(self) -> u128 {
+        self.addr.0 | self.host_mask()
+    }
+    /// address-range inclusion
+    fn covers(self, o: Pfx) -> bool {
+        self.v6 == o.v6 && self.min() <= o.min() && o.max() <= self.max()
+    }
+    fn lib(self) -> Result<Prefix, Fail> {
+        if self.v6 {
+            Prefix::new_v6(Ipv6Addr::from(self.addr.0), self.len)
+        } else {
+            Prefix::new_v4(Ipv4Addr::from(self.addr.0 as u32), self.len)
+        }
+        .map_err(|e| Fail::new(format!("case outside the domain: prefix {:?}: {}", self, e)))
+    }
+}
+
+#[derive(Clone, Debug, PartialEq, Eq, Serialize, Deserialize)]
+pub struct PrefixFilterSpec {
+    pub prefix: Option<Pfx>,
+    pub asn: Option<u32>,
+    pub comment: Option<String>,
+}
+
+#[derive(Clone, Debug, PartialEq, Eq, Serialize, Deserialize)]
+pub struct BgpsecFilterSpec {
+    pub ski: Option<[u8; 20]>,
+    pub asn: Option<u32>,
+    pub comment: Option<String>,
+}
+
+#[derive(Clone, Debug, PartialEq, Eq, Serialize, Deserialize)]
+pub struct AspaFilterSpec {
+    pub customer: Option<u32>,
+    pub comment: Option<String>,
+}
+
+#[derive(Clone, Debug, PartialEq, Eq, Serialize, Deserialize)]
+pub enum PayloadSpec {
+    /// max_len: None or within [len, family]
+    Origin { prefix: Pfx, max_len: Option<u8>, asn: u32 },
+    RouterKey { ski: [u8; 20], asn: u32, info: Vec<u8> },
+    Aspa { customer: u32, providers: Vec<u32> },
+}
+
+#[derive(Clone, Debug, Default, PartialEq, Eq, Serialize, Deserialize)]
+pub struct FiltersSpec {
+    pub prefix: Vec<PrefixFilterSpec>,
+    pub bgpsec: Vec<BgpsecFilterSpec>,
+    pub aspa: Option<Vec<AspaFilterSpec>>,
+}
+
+#[derive(Clone, Debug, Default, PartialEq, Eq, Serialize, Deserialize)]
+pub struct AssertionsSpec {
+    /// (origin payload, comment)
+    pub prefix: Vec<(PayloadSpec, Option<String>)>,
+    pub bgpsec: Vec<(PayloadSpec, Option<String>)>,
+    pub aspa: Option<Vec<(PayloadSpec, Option<String>)>>,
+}
+
+//------------ reference predicate ---------------------------------------------
+
+fn opt_all(criteria: &[Option<bool>]) -> bool {
+    criteria.iter().any(|c| c.is_some()) && criteria.iter().all(|c| c.unwrap_or(true))
+}
+
+fn pf_matches(f: &PrefixFilterSpec, p: &PayloadSpec) -> bool {
+    match p {
+        PayloadSpec::Origin { prefix, asn, .. } => opt_all(&[f.prefix.map(|fp| fp.covers(*prefix)), f.asn.map(|a| a == *asn)]),
+        _ => false,
+    }
+}
+
+fn bf_matches(f: &BgpsecFilterSpec, p: &PayloadSpec) -> bool {
+    match p {
+        PayloadSpec::RouterKey { ski, asn, .. } => opt_all(&[f.ski.map(|s| s == *ski), f.asn.map(|a| a == *asn)]),
+        _ => false,
+    }
+}
+
+fn af_matches(f: &AspaFilterSpec, p: &PayloadSpec) -> bool {
+    match p {
+        PayloadSpec::Aspa { customer, .. } => opt_all(&[f.customer.map(|c| c == *customer)]),
+        _ => false,
+    }
+}
+
+fn model_drop(f: &FiltersSpec, p: &PayloadSpec) -> bool {
+    f.prefix.iter().any(|x| pf_matches(x, p))
+        || f.bgpsec.iter().any(|x| bf_matches(x, p))
+        || f.aspa.iter().flatten().any(|x| af_matches(x, p))
+}
+
+//------------ building library values ------------------------------------------
+
+fn providers(v: &[u32]) -> Result<ProviderAsns, Fail> {
+    ProviderAsns::try_from_iter(v.iter().map(|&a| Asn::from_u32(a)))
+        .map_err(|e| Fail::new(format!("case outside the domain: {} providers: {}", v.len(), e)))
+}
+
+fn key_info(b: &[u8]) -> Result<RouterKeyInfo, Fail> {
+    RouterKeyInfo::new(bytes::Bytes::copy_from_slice(b)).map_err(|e| Fail::new(format!("key info: {}", e)))
+}
+
+fn max_len_prefix(prefix: Pfx, max_len: Option<u8>) -> Result<MaxLenPrefix, Fail> {
+    MaxLenPrefix::new(prefix.lib()?, max_len)
+        .map_err(|e| Fail::new(format!("case outside the domain: max-len {:?} of {:?}: {}", max_len, prefix, e)))
+}
+
+fn build_payload(p: &PayloadSpec) -> Result<rtr::Payload, Fail> {
+    Ok(match p {
+        PayloadSpec::Origin { prefix, max_len, asn } => rtr::Payload::origin(max_len_prefix(*prefix, *max_len)?, Asn::from_u32(*asn)),
+        PayloadSpec::RouterKey { ski, asn, info } => rtr::Payload::router_key(KeyIdentifier::from(*ski), Asn::from_u32(*asn), key_info(info)?),
+        PayloadSpec::Aspa { customer, providers: pr } => rtr::Payload::aspa(Asn::from_u32(*customer), providers(pr)?),
+    })
+}
+
+fn build_filters(f: &FiltersSpec) -> Result<ValidationOutputFilters, Fail> {
+    let mut prefix = Vec::new();
+    for x in &f.prefix {
+        prefix.push(PrefixFilter::new(x.prefix.map(|p| p.lib()).transpose()?, x.asn.map(Asn::from_u32), x.comment.clone()));
+    }
+    let bgpsec: Vec<BgpsecFilter> =
+        f.bgpsec.iter().map(|x| BgpsecFilter::new(x.ski.map(KeyIdentifier::from), x.asn.map(Asn::from_u32), x.comment.clone())).collect();
+    let mut res = ValidationOutputFilters::new(prefix, bgpsec);
+    res.aspa = f.aspa.as_ref().map(|v| v.iter().map(|x| AspaFilter::new(x.customer.map(Asn::from_u32), x.comment.clone())).collect());
+    Ok(res)
+}
+
+fn build_assertions(a: &AssertionsSpec) -> Result<LocallyAddedAssertions, Fail> {
+    let mut prefix = Vec::new();
+    for (p, c) in &a.prefix {
+        let PayloadSpec::Origin { prefix: px, max_len, asn } = p else { return Err(Fail::new("case outside the domain: prefix assertion of another kind")) };
+        prefix.push(PrefixAssertion::new(max_len_prefix(*px, *max_len)?, Asn::from_u32(*asn), c.clone()));
+    }
+    let mut bgpsec = Vec::new();
+    for (p, c) in &a.bgpsec {
+        let PayloadSpec::RouterKey { ski, asn, info } = p else { return Err(Fail::new("case outside the domain: bgpsec assertion of another kind")) };
+        let info = Base64KeyInfo::try_from(info.clone()).map_err(|e| Fail::new(format!("key info: {}", e)))?;
+        bgpsec.push(BgpsecAssertion::new(Asn::from_u32(*asn), KeyIdentifier::from(*ski), info, c.clone()));
+    }
+    let mut res = LocallyAddedAssertions::new(prefix, bgpsec);
+    if let Some(list) = &a.aspa {
+        let mut aspa = Vec::new();
+        for (p, c) in list {
+            let PayloadSpec::Aspa { customer, providers: pr } = p else { return Err(Fail::new("case outside the domain: aspa assertion of another kind")) };
+            aspa.push(AspaAssertion::new(Asn::from_u32(*customer), providers(pr)?, c.clone()));
+        }
+        res.aspa = Some(aspa);
+    }
+    Ok(res)
+}
+
+//------------ drop decision ----------------------------------------------------
+
+#[derive(Clone, Debug, Serialize, Deserialize)]
+pub struct DropCase {
+    pub filters: FiltersSpec,
+    pub payloads: Vec<PayloadSpec>,
+}
+
+fn kind_name(p: &PayloadSpec) -> &'static str {
+    match p {
+        PayloadSpec::Origin { .. } => "origin",
+        PayloadSpec::RouterKey { .. } => "router-key",
+        PayloadSpec::Aspa { .. } => "aspa",
+    }
+}
+
+fn run_drop(c: &DropCase, obs: &mut Obs) -> CheckResult {
+    let filters = build_filters(&c.filters)?;
+    let file = SlurmFile::new(filters.clone(), LocallyAddedAssertions::default());
+    let kinds = (!c.filters.prefix.is_empty()) as u8 + (!c.filters.bgpsec.is_empty()) as u8
+        + c.filters.aspa.as_ref().is_some_and(|a| !a.is_empty()) as u8;
+    obs.label_if(c.filters.aspa.is_none(), "aspa-none");
+    let mut nt = false;
+    for p in &c.payloads {
+        let payload = build_payload(p)?;
+        let exp = model_drop(&c.filters, p);
+        let got = file.drop_payload(&payload);
+        let sig = match (p, exp, got) {
+            (PayloadSpec::RouterKey { .. }, true, false) => "drop-ignores-bgpsec-filters",
+            (PayloadSpec::Aspa { .. }, true, false) => "drop-ignores-aspa-filters",
+            _ => "drop-mismatch",
+        };
+        ensure_sig!(
+            got == exp, sig,
+            "SlurmFile::drop_payload({:?}) = {}, reference says {} for filters {:?}", p, got, exp, c.filters
+        );
+        ensure!(filters.drop_payload(&payload) == exp, "ValidationOutputFilters::drop_payload({:?}) differs from the file's", p);
+        // each filter on its own
+        for (fs, f) in c.filters.prefix.iter().zip(&filters.prefix) {
+            let e = pf_matches(fs, p);
+            ensure!(f.drop_payload(&payload) == e, "PrefixFilter {:?}.drop_payload({:?}) = {}, reference {}", fs, p, !e, e);
+            if let rtr::Payload::Origin(o) = &payload {
+                ensure!(f.drop_origin(*o) == e, "PrefixFilter {:?}.drop_origin({:?}) = {}, reference {}", fs, p, !e, e);
+            }
+        }
+        for (fs, f) in c.filters.bgpsec.iter().zip(&filters.bgpsec) {
+            let e = bf_matches(fs, p);
+            ensure!(f.drop_payload(&payload) == e, "BgpsecFilter {:?}.drop_payload({:?}) = {}, reference {}", fs, p, !e, e);
+            if let rtr::Payload::RouterKey(k) = &payload {
+                ensure!(f.drop_router_key(k) == e, "BgpsecFilter {:?}.drop_router_key({:?}) = {}, reference {}", fs, p, !e, e);
+            }
+        }
+        for (fs, f) in c.filters.aspa.iter().flatten().zip(filters.aspa.iter().flatten()) {
+            let e = af_matches(fs, p);
+            ensure!(f.drop_payload(&payload) == e, "AspaFilter {:?}.drop_payload({:?}) = {}, reference {}", fs, p, !e, e);
+            if let rtr::Payload::Aspa(a) = &payload {
+                ensure!(f.drop_aspa(a) == e, "AspaFilter {:?}.drop_aspa({:?}) = {}, reference {}", fs, p, !e, e);
+            }
+        }
+        for l in [Some(kind_name(p)), Some(if exp { "dropped" } else { "kept" }), (exp && !matches!(p, PayloadSpec::Origin { .. })).then_some("dropped-non-prefix")] {
+            // class labels count cases, not payloads
+            if let Some(l) = l {
+                if !obs.labels.contains(&l) {
+                    obs.label(l);
+                }
+            }
+        }
+        nt |= kinds >= 2 && !matches!(p, PayloadSpec::Origin { .. });
+    }
+    obs.evals(c.payloads.len().saturating_sub(1) as u64);
+    obs.nontrivial_if(nt);
+    Ok(())
+}
+
+//------------ drop-enum --------------------------------------------------------
+
+const ASN_EQ: u32 = 64500;
+const ASN_NE: u32 = 64501;
+const SKI_EQ: [u8; 20] = [0x11; 20];
+const SKI_NE: [u8; 20] = [0x11, 0x11, 0x11, 0x11, 0x11, 0x11, 0x11, 0x11, 0x11, 0x11, 0x11, 0x11, 0x11, 0x11, 0x11, 0x11, 0x11, 0x11, 0x11, 0x10];
+
+fn enum_payloads() -> Vec<PayloadSpec> {
+    let o = |v6, addr, len, max_len| PayloadSpec::Origin { prefix: Pfx::new(v6, addr, len), max_len, asn: ASN_EQ };
+    vec![
+        o(false, 0x0A01_0000, 16, Some(24)),
+        o(false, 0, 0, None),
+        o(false, 0xC000_0201, 32, Some(32)),
+        o(true, 0x2001_0db8 << 96, 32, Some(48)),
+        o(true, 0, 0, Some(128)),
+        o(true, (0x2001_0db8 << 96) | 1, 128, None),
+        PayloadSpec::RouterKey { ski: SKI_EQ, asn: ASN_EQ, info: vec![1, 2, 3, 4] },
+        PayloadSpec::RouterKey { ski: SKI_EQ, asn: ASN_EQ, info: vec![] },
+        PayloadSpec::Aspa { customer: ASN_EQ, providers: vec![64496, 64497] },
+    ]
+}
+
+/// Prefix criteria relative to `r` (None = criterion absent). Duplicates removed.
+fn prefix_relatives(r: Pfx) -> Vec<Option<Pfx>> {
+    let fam = r.fam();
+    let mut v: Vec<Option<Pfx>> = vec![None, Some(r), Some(Pfx::new(r.v6, 0, 0)), Some(Pfx::new(!r.v6, 0, 0))];
+    if r.len > 0 {
+        v.push(Some(Pfx::new(r.v6, r.addr.0, r.len - 1))); // covering by one bit
+        v.push(Some(Pfx::new(r.v6, r.addr.0 ^ (1u128 << (fam - r.len)), r.len))); // sibling
+    }
+    if r.len < fam {
+        v.push(Some(Pfx::new(r.v6, r.addr.0, r.len + 1))); // more specific
+        v.push(Some(Pfx::new(r.v6, r.addr.0 | (1u128 << (fam - r.len - 1)), r.len + 1)));
+    }
+    // the same leading bits in the other family
+    let ofam: u8 = if r.v6 { 32 } else { 128 };
+    let olen = r.len.min(ofam);
+    let top = if r.len == 0 { 0 } else { r.addr.0 >> (fam - r.len.min(fam)) as u32 }; // the r.len leading bits
+    let top = if r.len > olen { top >> (r.len - olen) } else { top };
+    let oaddr = if olen == 0 { 0 } else { top << (ofam - olen) as u32 };
+    v.push(Some(Pfx::new(!r.v6, oaddr, olen)));
+    let mut out: Vec<Option<Pfx>> = Vec::new();
+    for x in v {
+        if !out.contains(&x) {
+            out.push(x);
+        }
+    }
+    out
+}
+
+fn enum_filters_for(p: &PayloadSpec) -> (Vec<PrefixFilterSpec>, Vec<BgpsecFilterSpec>, Vec<Option<Vec<AspaFilterSpec>>>) {
+    let reference = match p {
+        PayloadSpec::Origin { prefix, .. } => *prefix,
+        _ => Pfx::new(false, 0x0A01_0000, 16),
+    };
+    let asns = [None, Some(ASN_EQ), Some(ASN_NE)];
+    let mut pf = Vec::new();
+    for px in prefix_relatives(reference) {
+        for a in asns {
+            pf.push(PrefixFilterSpec { prefix: px, asn: a, comment: None });
+        }
+    }
+    let mut bf = Vec::new();
+    for s in [None, Some(SKI_EQ), Some(SKI_NE)] {
+        for a in asns {
+            bf.push(BgpsecFilterSpec { ski: s, asn: a, comment: None });
+        }
+    }
+    let mut af = vec![None, Some(vec![])];
+    for a in asns {
+        af.push(Some(vec![AspaFilterSpec { customer: a, comment: None }]));
+    }
+    af.push(Some(vec![AspaFilterSpec { customer: Some(ASN_NE), comment: None }, AspaFilterSpec { customer: Some(ASN_EQ), comment: None }]));
+    (pf, bf, af)
+}
+
+/// (number of prefix-filter lists, bgpsec lists, aspa lists) for payload `pi`.
+fn enum_dims(p: &PayloadSpec) -> (u64, u64, u64) {
+    let (pf, bf, af) = enum_filters_for(p);
+    let n = pf.len() as u64;
+    (1 + n + n * n, 1 + bf.len() as u64, af.len() as u64)
+}
+
+fn count_drop_enum(_: Tier, _: u64) -> u64 {
+    enum_payloads().iter().map(|p| { let (a, b, c) = enum_dims(p); a * b * c }).sum()
+}
+
+fn make_drop_enum(_: Tier, _: u64, mut idx: u64) -> DropCase {
+    for p in enum_payloads() {
+        let (a, b, c) = enum_dims(&p);
+        if idx >= a * b * c {
+            idx -= a * b * c;
+            continue;
+        }
+        let (pf, bf, af) = enum_filters_for(&p);
+        let (pi, rest) = (idx % a, idx / a);
+        let (bi, ai) = (rest % b, rest / b);
+        let n = pf.len() as u64;
+        let prefix = if pi == 0 {
+            vec![]
+        } else if pi <= n {
+            vec![pf[(pi - 1) as usize].clone()]
+        } else {
+            let q = pi - 1 - n;
+            vec![pf[(q / n) as usize].clone(), pf[(q % n) as usize].clone()]
+        };
+        let bgpsec = if bi == 0 { vec![] } else { vec![bf[(bi - 1) as usize].clone()] };
+        return DropCase { filters: FiltersSpec { prefix, bgpsec, aspa: af[ai as usize].clone() }, payloads: vec![p] };
+    }
+    unreachable!("index beyond the enumeration")
+}
+
+//------------ random generators -------------------------------------------------
+
+fn pool_prefixes() -> Vec<Pfx> {
+    vec![
+        Pfx::new(false, 0, 0),
+        Pfx::new(false, 0x0A00_0000, 8),
+        Pfx::new(false, 0x0A80_0000, 9),
+        Pfx::new(false, 0x0A01_0000, 16),
+        Pfx::new(false, 0x0A01_0200, 24),
+        Pfx::new(false, 0x0A01_0203, 32),
+        Pfx::new(false, 0xC000_0200, 24),
+        Pfx::new(true, 0, 0),
+        Pfx::new(true, 0x0A << 120, 8),
+        Pfx::new(true, 0x0A01 << 112, 16),
+        Pfx::new(true, 0x2001_0db8 << 96, 32),
+        Pfx::new(true, 0x2001_0db8_0001 << 80, 48),
+        Pfx::new(true, (0x2001_0db8_0001 << 80) | 1, 128),
+    ]
+}
+
+fn pfx_s() -> BoxedStrategy<Pfx> {
+    prop_oneof![
+        4 => prop::sample::select(pool_prefixes()),
+        1 => (any::<bool>(), dense_u128(), any::<u8>()).prop_map(|(v6, a, l)| {
+            let a = if v6 { a } else { (a >> 96) ^ (a & 0xFFFF_FFFF) };
+            Pfx::new(v6, a, l % if v6 { 129 } else { 33 })
+        }),
+    ]
+    .boxed()
+}
+
+fn asn_s() -> BoxedStrategy<u32> {
+    prop_oneof![5 => prop::sample::select(vec![0u32, 1, ASN_EQ, ASN_NE, u32::MAX]), 1 => dense_u32()].boxed()
+}
+
+fn ski_s() -> BoxedStrategy<[u8; 20]> {
+    prop_oneof![
+        4 => prop::sample::select(vec![SKI_EQ, SKI_NE, [0u8; 20], [0xFF; 20]]),
+        1 => prop::array::uniform20(any::<u8>()),
+    ]
+    .boxed()
+}
+
+fn comment_s() -> BoxedStrategy<Option<String>> {
+    let ch = prop_oneof![
+        4 => prop::sample::select(vec!['"', '\\', '/', '\n', '\r', '\t', '\u{0}', '\u{1f}', '\u{7f}', '{', '}', '[', ']', ':', ',', ' ', 'a', 'é', '\u{2028}', '\u{fffd}', '\u{feff}', '\u{1F600}', '\u{10FFFF}']),
+        2 => any::<char>(),
+        2 => prop::char::range(' ', '~'),
+    ];
+    prop::option::weighted(0.6, prop::collection::vec(ch, 0..12).prop_map(|v| v.into_iter().collect::<String>())).boxed()
+}
+
+fn no_comment() -> BoxedStrategy<Option<String>> {
+    Just(None).boxed()
+}
+
+fn origin_s() -> BoxedStrategy<PayloadSpec> {
+    (pfx_s(), prop::option::weighted(0.6, any::<u8>()), asn_s())
+        .prop_map(|(prefix, ml, asn)| {
+            let max_len = ml.map(|m| prefix.len + m % (prefix.fam() - prefix.len + 1));
+            PayloadSpec::Origin { prefix, max_len, asn }
+        })
+        .boxed()
+}
+
+fn router_key_s() -> BoxedStrategy<PayloadSpec> {
+    (ski_s(), asn_s(), prop_oneof![3 => prop::collection::vec(any::<u8>(), 0..8), 1 => prop::collection::vec(any::<u8>(), 0..120)])
+        .prop_map(|(ski, asn, info)| PayloadSpec::RouterKey { ski, asn, info })
+        .boxed()
+}
+
+fn aspa_s() -> BoxedStrategy<PayloadSpec> {
+    (asn_s(), prop_oneof![4 => prop::collection::vec(asn_s(), 0..6), 1 => prop::collection::vec(dense_u32(), 0..40)])
+        .prop_map(|(customer, providers)| PayloadSpec::Aspa { customer, providers })
+        .boxed()
+}
+
+fn payload_s() -> BoxedStrategy<PayloadSpec> {
+    prop_oneof![origin_s(), router_key_s(), aspa_s()].boxed()
+}
+
+fn filters_s(comment: fn() -> BoxedStrategy<Option<String>>) -> BoxedStrategy<FiltersSpec> {
+    let pf = (prop::option::weighted(0.65, pfx_s()), prop::option::weighted(0.55, asn_s()), comment())
+        .prop_map(|(prefix, asn, comment)| PrefixFilterSpec { prefix, asn, comment });
+    let bf = (prop::option::weighted(0.55, ski_s()), prop::option::weighted(0.55, asn_s()), comment())
+        .prop_map(|(ski, asn, comment)| BgpsecFilterSpec { ski, asn, comment });
+    let af = (prop::option::weighted(0.8, asn_s()), comment()).prop_map(|(customer, comment)| AspaFilterSpec { customer, comment });
+    (prop::collection::vec(pf, 0..=6), prop::collection::vec(bf, 0..=6), prop::option::weighted(0.7, prop::collection::vec(af, 0..=6)))
+        .prop_map(|(prefix, bgpsec, aspa)| FiltersSpec { prefix, bgpsec, aspa })
+        .boxed()
+}
+
+fn drop_strategy(_: Tier) -> BoxedStrategy<DropCase> {
+    (filters_s(no_comment), prop::collection::vec(payload_s(), 1..=6), any::<u16>(), any::<u16>())
+        .prop_map(|(filters, mut payloads, i, j)| {
+            // aim one payload at an existing filter so that matches are frequent
+            let k = pick_idx(j, payloads.len());
+            match &payloads[k] {
+                PayloadSpec::RouterKey { info, .. } if !filters.bgpsec.is_empty() => {
+                    let f = &filters.bgpsec[pick_idx(i, filters.bgpsec.len())];
+                    payloads[k] = PayloadSpec::RouterKey { ski: f.ski.unwrap_or(SKI_EQ), asn: f.asn.unwrap_or(ASN_EQ), info: info.clone() };
+                }
+                PayloadSpec::Aspa { providers, .. } if filters.aspa.as_ref().is_some_and(|a| !a.is_empty()) => {
+                    let a = filters.aspa.as_ref().unwrap();
+                    let f = &a[pick_idx(i, a.len())];
+                    payloads[k] = PayloadSpec::Aspa { customer: f.customer.unwrap_or(ASN_EQ), providers: providers.clone() };
+                }
+                _ => {}
+            }
+            DropCase { filters, payloads }
+        })
+        .boxed()
+}
+
+//------------ json --------------------------------------------------------------
+
+#[derive(Clone, Debug, Serialize, Deserialize)]
+pub struct FileCase {
+    pub filters: FiltersSpec,
+    pub assertions: AssertionsSpec,
+}
+
+fn file_strategy(_: Tier) -> BoxedStrategy<FileCase> {
+    let with_c = |s: BoxedStrategy<PayloadSpec>| prop::collection::vec((s, comment_s()), 0..=5);
+    (filters_s(comment_s), with_c(origin_s()), with_c(router_key_s()), prop::option::weighted(0.7, with_c(aspa_s())))
+        .prop_map(|(filters, prefix, bgpsec, aspa)| FileCase { filters, assertions: AssertionsSpec { prefix, bgpsec, aspa } })
+        .boxed()
+}
+
+fn run_json(c: &FileCase, obs: &mut Obs) -> CheckResult {
+    let filters = build_filters(&c.filters)?;
+    let assertions = build_assertions(&c.assertions)?;
+    let file = SlurmFile::new(filters, assertions);
+
+    let check_back = |form: &str, text: &str, back: Result<SlurmFile, serde_json::Error>| -> CheckResult {
+        match back {
+            Ok(b) => {
+                ensure!(b == file, "{}: parsed file differs.\n json: {}\n parsed:   {:?}\n original: {:?}", form, text, b, file);
+                Ok(())
+            }
+            Err(e) => Err(Fail::new(format!("{}: the file's own JSON does not parse: {}\n json: {}\n original: {:?}", form, e, text, file))),
+        }
+    };
+    let compact = no_panic("to_string", || file.to_string())?;
+    check_back("to_string/from_str", &compact, SlurmFile::from_str(&compact))?;
+    check_back("to_string/from_reader", &compact, SlurmFile::from_reader(compact.as_bytes()))?;
+    let pretty = no_panic("to_string_pretty", || file.to_string_pretty())?;
+    check_back("to_string_pretty/from_str", &pretty, SlurmFile::from_str(&pretty))?;
+    let mut w = Vec::new();
+    file.to_writer(&mut w).map_err(|e| Fail::new(format!("to_writer: {}", e)))?;
+    let wt = String::from_utf8(w).map_err(|e| Fail::new(format!("to_writer wrote invalid UTF-8: {}", e)))?;
+    check_back("to_writer/from_reader", &wt, SlurmFile::from_reader(wt.as_bytes()))?;
+    let mut w = Vec::new();
+    file.to_writer_pretty(&mut w).map_err(|e| Fail::new(format!("to_writer_pretty: {}", e)))?;
+    let wt = String::from_utf8(w).map_err(|e| Fail::new(format!("to_writer_pretty wrote invalid UTF-8: {}", e)))?;
+    check_back("to_writer_pretty/from_str", &wt, SlurmFile::from_str(&wt))?;
+
+    // assertions -> payload items
+    let got: Vec<rtr::Payload> = file.assertions.iter_payload().collect();
+    let a = &c.assertions;
+    let n = a.prefix.len() + a.bgpsec.len() + a.aspa.as_ref().map(|v| v.len()).unwrap_or(0);
+    ensure!(got.len() == n, "iter_payload yields {} items for {} assertions", got.len(), n);
+    let mut exp_o = Vec::new();
+    for (p, _) in &a.prefix {
+        exp_o.push(build_payload(p)?);
+    }
+    let mut exp_k = Vec::new();
+    for (p, _) in &a.bgpsec {
+        exp_k.push(build_payload(p)?);
+    }
+    let mut exp_a = Vec::new();
+    for (p, _) in a.aspa.iter().flatten() {
+        exp_a.push(build_payload(p)?);
+    }
+    let by = |f: fn(&rtr::Payload) -> bool| got.iter().filter(|p| f(p)).cloned().collect::<Vec<_>>();
+    let got_o = by(|p| matches!(p, rtr::Payload::Origin(_)));
+    ensure!(got_o == exp_o, "origins from iter_payload {:?}, assertions say {:?}", got_o, exp_o);
+    for (g, e) in got_o.iter().zip(&exp_o) {
+        if let (rtr::Payload::Origin(g), rtr::Payload::Origin(e)) = (g, e) {
+            // RouteOrigin's == resolves the max length; the fields themselves must agree too
+            ensure!(g.prefix == e.prefix && g.asn == e.asn, "origin fields {:?}, assertion {:?}", g, e);
+        }
+    }
+    let got_k = by(|p| matches!(p, rtr::Payload::RouterKey(_)));
+    ensure!(got_k == exp_k, "router keys from iter_payload {:?}, assertions say {:?}", got_k, exp_k);
+    let got_a = by(|p| matches!(p, rtr::Payload::Aspa(_)));
+    ensure!(got_a == exp_a, "ASPAs from iter_payload {:?}, assertions say {:?}", got_a, exp_a);
+
+    let kinds = (!a.prefix.is_empty()) as u8 + (!a.bgpsec.is_empty()) as u8 + a.aspa.as_ref().is_some_and(|v| !v.is_empty()) as u8;
+    let has_comment = a.prefix.iter().chain(&a.bgpsec).chain(a.aspa.iter().flatten()).any(|(_, c)| c.is_some())
+        || c.filters.prefix.iter().any(|f| f.comment.is_some())
+        || c.filters.bgpsec.iter().any(|f| f.comment.is_some())
+        || c.filters.aspa.iter().flatten().any(|f| f.comment.is_some());
+    obs.nontrivial_if(kinds >= 2 && has_comment);
+    obs.label_if(has_comment, "comment");
+    obs.label_if(a.aspa.is_none() && c.filters.aspa.is_none(), "version-1");
+    obs.label_if(a.aspa.is_some() || c.filters.aspa.is_some(), "version-2");
+    obs.label_if(kinds == 3, "all-assertion-kinds");
+    Ok(())
+}
 
 pub fn property() -> Property {
-    Property { id: "C15", rule: "", assumptions: vec![], subs: vec![] }
+    Property {
+        id: "C15",
+        rule: RULE,
+        assumptions: vec![
+            "prefix coverage reference: same family and address-range inclusion on integers (the C13 model)",
+            "iter_payload is compared per payload kind in assertion order; the interleaving of kinds is not part of the statement",
+            "generated files stay inside the documented domain: valid prefixes (host bits zero), max length within [len, family], at most 40 providers, key info below 2^32 bytes",
+        ],
+        subs: vec![
+            EnumSub { name: "drop-enum", count: count_drop_enum, make: make_drop_enum, run: run_drop, exhaustive: true }.boxed(),
+            PropSub {
+                name: "drop-random",
+                strategy: drop_strategy,
+                cases: |t| t.pick(400_000, 8_000_000),
+                run: run_drop,
+                floors: &[("origin", 0.3), ("router-key", 0.3), ("aspa", 0.3), ("dropped", 0.3), ("kept", 0.3), ("dropped-non-prefix", 0.1), ("aspa-none", 0.1)],
+            }
+            .boxed(),
+            PropSub {
+                name: "json",
+                strategy: file_strategy,
+                cases: |t| t.pick(100_000, 1_200_000),
+                run: run_json,
+                floors: &[("comment", 0.4), ("version-1", 0.03), ("version-2", 0.4), ("all-assertion-kinds", 0.15)],
+            }
+            .boxed(),
+        ],
+    }
 }
